@@ -40,6 +40,24 @@ Theorem polar_closure_is_superset : forall r, wf_rect r -> rsub r (s2_Rect_Polar
 Proof. exact polar_closure_sup. Qed.
 Print Assumptions polar_closure_is_superset.
 
+(** 2b. ExpandForSubregions: full, or the polar closure of an expansion by exactly 9 dblEpsilon in
+    latitude; in particular it contains the bound it is computed from. *)
+Theorem expand_for_subregions_is_9eps_expansion : forall b, s2_Rect_IsEmpty b = false ->
+  s2_ExpandForSubregions b = s2_FullRect \/
+  exists lngExp, (lngExp = 0%float \/ lngExp = c_pi) /\
+    s2_ExpandForSubregions b = s2_Rect_PolarClosure (s2_Rect_expanded b (mk_s2_LatLng c_9eps lngExp)).
+Proof. exact expand_for_subregions_shape. Qed.
+Print Assumptions expand_for_subregions_is_9eps_expansion.
+
+Theorem subregion_bound_contains_bound :
+  (forall i m, wf1 i -> nonnan m -> (0 <= rank m < top) ->
+     wf1 (r1_Interval_Expanded i m) /\ forall p, nonnan p -> mem1 i p -> mem1 (r1_Interval_Expanded i m) p) ->
+  (forall i m, valid_s1 i -> nonnan m -> (0 <= rank m < top) ->
+     valid_s1 (s1_Interval_Expanded i m) /\ forall x, inrange x -> mem_s1 i x -> mem_s1 (s1_Interval_Expanded i m) x) ->
+  forall b, wf_rect b -> rsub b (s2_ExpandForSubregions b).
+Proof. exact expand_for_subregions_sup. Qed.
+Print Assumptions subregion_bound_contains_bound.
+
 (** 3. Unions: Rect.Union contains both operands; CellUnion.RectBound (and the polygon bound)
     contains the bound of every cell (shell). *)
 Theorem rect_union_contains_both : forall a b ll, wf_rect a -> wf_rect b -> llv ll ->
